@@ -25,6 +25,9 @@ int fk_listener_new(void);
 /* Script for sockets created by socket(): behaviour and (if it connects) the peer's inbound script. */
 void fk_connect_script(int idx, int behaviour, const uint8_t * in, size_t inlen, int in_end);
 
+/* The peer of attempt idx starts sending only after it has received n bytes (a causal server). */
+void fk_connect_script_hold(int idx, size_t n);
+
 /* Menus (smaller positive amounts offered as deviations). */
 void fk_set_arrival_menu(const size_t * amounts, int n);
 void fk_set_space_menu(const size_t * amounts, int n);
@@ -50,6 +53,8 @@ int fk_send_errors(int fd);		/* sends that were answered with an error */
 int fk_conn_established(int fd);
 int fk_polled(const struct pollfd * fds, int n, int fd, short ev);
 extern int fk_accept_hard_errors;
+extern int fk_send_deviated;		/* some send-side answer other than "unlimited space" was given (harness resets it) */
+extern int fk_force_arrival;		/* no choice points: arrival_menu[0] bytes arrive per poll */
 size_t fk_canon(uint8_t * out, size_t max);
 /* First misuse of the kernel interface by the code under test (NULL if none). */
 const char * fk_error(void);
